@@ -131,4 +131,74 @@ type Result struct {
 	Faults   int       `json:"faults"` // injected failures that fired
 	Problems []Problem `json:"problems"`
 	Sample   string    `json:"sample"`
+	// counters of the map iteration seam, cumulative for the driver process
+	MapRanges    int `json:"map_ranges"`
+	Uncontrolled int `json:"map_ranges_uncontrolled"`
+}
+
+// ---- map iteration seam -----------------------------------------------------
+
+var (
+	keysCount    = map[string]int{}
+	MapRanges    int // ranges over maps with more than one key that the seam ordered
+	Uncontrolled int // ranges whose key order could not be canonicalised (keys that hold pointers)
+)
+
+// Keys returns the keys of m in an order the harness owns: the keys are put in
+// a canonical order (by their Key encoding) and then permuted by a function of
+// the call site and of how often that site has run in this process. Any order
+// is a legal behaviour of `range m`; consecutive visits of one site see
+// different orders, so code whose result depends on the order shows it, and
+// the same process always sees the same orders (no runtime randomness).
+// Every range over a map in the generated code under test is rewritten to go
+// through here (geninst.RewriteMapRanges).
+func Keys[K comparable, V any](m map[K]V, site string) []K {
+	keys := make([]K, 0, len(m))
+	for k := range m {
+		keys = append(keys, k)
+	}
+	if len(keys) < 2 {
+		return keys
+	}
+	enc := make(map[K]string, len(keys))
+	for _, k := range keys {
+		rv := reflect.ValueOf(k)
+		if holdsPointer(rv.Type()) {
+			Uncontrolled++
+			return keys
+		}
+		enc[k] = Key(k)
+	}
+	sort.Slice(keys, func(i, j int) bool { return enc[keys[i]] < enc[keys[j]] })
+	n := keysCount[site]
+	keysCount[site]++
+	MapRanges++
+	h := Hash64(fmt.Sprint(site, "#", n))
+	// Fisher-Yates driven by a splitmix stream seeded from (site, visit number)
+	for i := len(keys) - 1; i > 0; i-- {
+		h += 0x9e3779b97f4a7c15
+		z := h
+		z = (z ^ (z >> 30)) * 0xbf58476d1ce4e5b9
+		z = (z ^ (z >> 27)) * 0x94d049bb133111eb
+		z ^= z >> 31
+		j := int(z % uint64(i+1))
+		keys[i], keys[j] = keys[j], keys[i]
+	}
+	return keys
+}
+
+func holdsPointer(t reflect.Type) bool {
+	switch t.Kind() {
+	case reflect.Ptr, reflect.UnsafePointer, reflect.Chan, reflect.Interface, reflect.Func:
+		return true
+	case reflect.Array:
+		return holdsPointer(t.Elem())
+	case reflect.Struct:
+		for i := 0; i < t.NumField(); i++ {
+			if holdsPointer(t.Field(i).Type) {
+				return true
+			}
+		}
+	}
+	return false
 }
